@@ -162,7 +162,10 @@ def judge (j : Json) : Except String Json := do
     | .suggest count w _ => needsAlgorithm before h w count
     | .getSuggestions count _ => needsAlgorithm before h h.cid count
     | _ => false
+  let nothing := match call with | .complete id m none => nothingToSelect before h id m | _ => false
   return Json.mkObj [("lifecycle", toJson (lifecycleOK before after)), ("infeasible", toJson infeasible),
+    ("promised", toJson (promisedOK before h call obs)), ("valueError", toJson (valueErrorOK before h call obs)),
+    ("earlyStop", toJson (earlyStopOK after h call obs)), ("nothingToSelect", toJson nothing),
     ("assigned", toJson assigned), ("reported", toJson reported), ("poll", toJson poll), ("views", toJson views),
     ("completable", toJson completable'), ("needsAlgorithm", toJson needs)]
 
